@@ -8,7 +8,8 @@
 // harness: k_csi_scalar_50 props=C03,C20 kind=complete tier=quick timeout=900 obligation=Parser::csi_dispatch/E1(scalar,0x50-0x57)
 // harness: k_csi_scalar_58 props=C03,C20 kind=complete tier=quick timeout=900 obligation=Parser::csi_dispatch/E1(scalar,0x58-0x5f)
 // harness: k_csi_scalar_60 props=C03,C20 kind=complete tier=quick timeout=900 obligation=Parser::csi_dispatch/E1(scalar,0x60-0x67)
-// harness: k_csi_scalar_68 props=C03,C20 kind=complete tier=quick timeout=900 obligation=Parser::csi_dispatch/E1(scalar,0x68-0x6f)
+// harness: k_csi_scalar_68 props=C03,C20 kind=complete tier=quick timeout=900 obligation=Parser::csi_dispatch/E1(scalar,0x69-0x6b,0x6e,0x6f)
+// harness: k_csi_scalar_hlm props=C03,C20 kind=complete tier=thorough timeout=2400 obligation=Parser::csi_dispatch/E1(scalar,h,l,m outside the list-valued marker combinations)
 // harness: k_csi_scalar_70 props=C03,C20 kind=complete tier=quick timeout=900 obligation=Parser::csi_dispatch/E1(scalar,0x70-0x77)
 // harness: k_csi_scalar_78 props=C03,C20 kind=complete tier=quick timeout=900 obligation=Parser::csi_dispatch/E1(scalar,0x78-0x7e)
 // harness: k_csi_other props=C03,C20 kind=complete tier=thorough timeout=1800 obligation=Parser::csi_dispatch/E1(final outside 0x40-0x7e folded range)
@@ -211,7 +212,12 @@ mod verif_kani_parser {
     fn k_csi_scalar_60() { scalar_finals(&[0x60, 0x61, 0x62, 0x63, 0x64, 0x65, 0x66, 0x67]) }
     #[kani::proof]
     #[kani::unwind(34)]
-    fn k_csi_scalar_68() { scalar_finals(&[0x68, 0x69, 0x6a, 0x6b, 0x6c, 0x6d, 0x6e, 0x6f]) }
+    fn k_csi_scalar_68() { scalar_finals(&[0x69, 0x6a, 0x6b, 0x6e, 0x6f]) }
+    /// h, l, m with every marker / intermediate other than the ones that select SM/RM/DECSET/DECRST/SGR
+    /// (those return lists and have their own units): CBMC still has to encode the list-building arms
+    #[kani::proof]
+    #[kani::unwind(34)]
+    fn k_csi_scalar_hlm() { scalar_finals(&[0x68, 0x6c, 0x6d]) }
     #[kani::proof]
     #[kani::unwind(34)]
     fn k_csi_scalar_70() { scalar_finals(&[0x70, 0x71, 0x72, 0x73, 0x74, 0x75, 0x76, 0x77]) }
